@@ -34,7 +34,19 @@ def real_atom(a):
     if k == "fn":
         if a[1] in ("cumsum", "numpy.random.normal", "numpy.random.randn", "abs", "cos", "sin", "exp10", "ones", "ones_like", "real"):
             return all(is_real_form(x, real_atom) if isinstance(x, Form) else True for x in a[2]) or a[1] in ("abs", "real", "numpy.random.normal", "numpy.random.randn", "ones", "ones_like")
+        if a[1] in ("full", "full_like", "zeros", "zeros_like", "diff", "sqrt", "maximum", "minimum", "where", "clip"):
+            return all(is_real_form(x, real_atom) if isinstance(x, Form) else True for x in a[2][(1 if a[1] in ("full", "full_like") else 0):]) or a[1] in ("zeros", "zeros_like")
+        if a[1] == "setitem" and len(a[2]) == 3:
+            return all(is_real_form(x, real_atom) for x in (a[2][0], a[2][2]) if isinstance(x, Form))       # a real array with real values stored into it
+        if a[1].endswith(".normal") or a[1].endswith(".standard_normal"):
+            return True       # a draw from a generator object
         return False
+    if k == "meth" and a[2] in ("normal", "standard_normal", "random"):
+        return True
+    if k == "phi":
+        return all(isinstance(x, Form) and is_real_form(x, real_atom) for x in a[2])
+    if k == "idx":
+        return isinstance(a[1], Form) and is_real_form(a[1], real_atom)
     if k == "grp":
         return is_real_form(a[1], real_atom)
     return False
@@ -69,14 +81,15 @@ def strip_setitem(v):
 def rule_mzm(ctx):
     pkg = ctx.pkg
     fi = pkg.func("devices.MZM")
-    for noise, npol, pol, drive in itertools.product(("none", "notnone"), (1, 2), ("x", "y"), ("es", "scalar")):
+    for noise, npol, pol, drive in itertools.product(("none", "notnone"), (1, 2), ("x", "y"), ("es", "scalar", "ndarray")):
         ass = {"BW": None, "op_input.noise": noise, "op_input.n_pol": npol, "pol": pol}
         pc = {"op_input": "optical_signal"}
         if drive == "es":
             pc["el_input"] = "electrical_signal"
             u = S("el_input.signal")
         else:
-            ass["el_input"] = ("notinst", "electrical_signal")
+            # a raw drive: a number or an array of samples (each kind on its own run, so that dispatch on the kind is decided)
+            ass["el_input"] = [("notinst", "electrical_signal"), ("inst", "float", "int") if drive == "scalar" else ("inst", "numpy.ndarray", "ndarray")]
             u = S("el_input")
         it = Interp(pkg, assumptions=ass, param_classes=pc)
         outs = it.run(fi)
@@ -187,7 +200,9 @@ def rule_pm(ctx):
             ass["op_input.noise"] = noise
             pc = {"op_input": "optical_signal"}
             pc.update(pc0)
-            it = Interp(pkg, assumptions=ass, param_classes=pc)
+            # a drive waveform is a one-dimensional array of samples ("drives of matching length"); a number has no axes
+            val = {"scalar": [(S("el_input.ndim"), 0)], "ndarray": [(S("el_input.ndim"), 1)], "electrical_signal": [(S("el_input.signal.ndim"), 1)]}[kind]
+            it = Interp(pkg, assumptions=ass, param_classes=pc, valuation=val)
             outs = it.run(fi)
             case = f"noise={noise} drive={kind}"
             for (bfi, bn, base, attr) in it.bad_attrs:
@@ -200,7 +215,7 @@ def rule_pm(ctx):
                 lbs = [mk_fn("siglen", [S("el_input.signal")]), S("el_input.signal.size"), mk_fn("len", [S("el_input.signal")])] if kind == "electrical_signal" else [mk_fn("len", [S("el_input")]), S("el_input.size"), Form.atom(("idx", S("el_input.shape"), Form.num(0)))]
                 probs, where = [], fi.node
                 for na, nb in ((5, 3), (5, 5)):
-                    rej, e, out, _i = _concrete_run(pkg, fi, {}, ass, pc, [(la, na)] + [(x, nb) for x in lbs])
+                    rej, e, out, _i = _concrete_run(pkg, fi, {}, ass, pc, [(la, na)] + [(x, nb) for x in lbs] + val)
                     if na != nb and (not rej or e != "ValueError"):
                         probs.append(f"lengths {na} and {nb} " + ("are accepted" if not rej else f"raise {e}"))
                     elif na == nb and rej:
@@ -287,8 +302,8 @@ def rule_laser(ctx):
                 Ej = E * Form.num(0, -1)
                 if not is_real_form(Ej, real_atom):
                     bad = f"exponent {E!r} is not j x (real): the factor changes the instantaneous power"
-            elif a[0] == "fn" and a[1] == "ones_like":
-                continue
+            elif a[0] == "fn" and a[1] in ("ones_like", "ones"):
+                continue            # an array of ones: the constant amplitude at every sample
             else:
                 rest = rest * fpow(Form.atom(a), e)
         if bad:
